@@ -45,7 +45,7 @@ func (f *MemFile) Chdir() error {
 		return &fs.PathError{Op: op, Path: f.name, Err: fs.ErrClosed}
 	}
 
-	_, ok := f.nd.(*dirNode)
+	dn, ok := f.nd.(*dirNode)
 	if !ok {
 		err := error(avfs.ErrNotADirectory)
 		if f.vfs.OSType() == avfs.OsWindows {
@@ -53,6 +53,15 @@ func (f *MemFile) Chdir() error {
 		}
 
 		return &fs.PathError{Op: op, Path: f.name, Err: err}
+	}
+
+	// as Chdir, fchdir needs search permission on the directory.
+	dn.mu.RLock()
+	ok = dn.checkPermission(avfs.OpenLookup, f.vfs.User())
+	dn.mu.RUnlock()
+
+	if !ok {
+		return &fs.PathError{Op: op, Path: f.name, Err: f.vfs.err.PermDenied}
 	}
 
 	// the name given to OpenFile may be relative or not clean.
